@@ -154,6 +154,21 @@ static void run_ledger(void *va, FILE *out) {
                 mt_on();
             }
             break;
+        case 'W': case 'w':
+            /* more fragments withheld than the code is built for but not more than m (flat XOR: hd..m, the backend's own
+               decoder gives up or repairs; others: exactly m): whatever the answer, nothing stays allocated */
+            if (have_enc) {
+                uint64_t big = L->pat; int want = c.be == 3 ? c.hd + (int)(L->pat % (uint64_t)(c.m - c.hd + 1)) : c.m;
+                for (int i = 0; i < c.k + c.m && __builtin_popcountll(big) < want; i++) big |= 1ull << ((i * 5 + (int)(L->pat % 7)) % (c.k + c.m));
+                for (int i = 0; i < c.k + c.m && __builtin_popcountll(big) < want; i++) big |= 1ull << i;
+                int n = 0; for (int i = 0; i < c.k + c.m; i++) if (!((big >> i) & 1)) work[n++] = i < c.k ? ed[i] : ep[i - c.k];
+                if (call == 'W') { char *o2 = NULL; uint64_t l2 = 0; rc = liberasurecode_decode(desc, work, n, flen, 0, &o2, &l2); if (rc == 0) liberasurecode_decode_cleanup(desc, o2); }
+                else { mt_off(); char *of = malloc(flen); mt_on();
+                       int hi = 63 - __builtin_clzll(big);
+                       rc = liberasurecode_reconstruct_fragment(desc, work, n, flen, (L->pat & 1) ? __builtin_ctzll(big) : hi, of);
+                       mt_off(); free(of); mt_on(); }
+            }
+            break;
         case 'f': if (od) { liberasurecode_decode_cleanup(desc, od); od = NULL; } break;
         case 'R': case 'r':
             if (have_enc) {
@@ -198,7 +213,7 @@ void suite_ledger(int tier) {
         /* sanitizer build: the same histories run for their side effects (ASan: use after free,
            double free, overflow; LeakSanitizer at exit) */
     }
-    const char *alphabet = "CXDEecFSUIBVfRrNMLHhGg";
+    const char *alphabet = "CXDEecFSUIBVfRrNMLHhGgWw";
     int na = (int)strlen(alphabet);
     cfg_t cfgs[] = { {6,4,2,2,2}, {6,1,1,1,2}, {3,5,5,3,2}, {3,10,6,4,2}, {0,3,2,2,2}, {6,10,4,4,2} };
     int nh = tier ? 400 : 50;
@@ -229,7 +244,7 @@ void suite_ledger(int tier) {
             if (e > tol || !(pat & ((1ull << c.k) - 1))) continue;
             int data_only = !(pat >> c.k);
             if (!(full && (data_only || tier)) && rnd(full ? 6 : 40)) continue;
-            ledger_t L; L.c = c; L.pat = pat; strcpy(L.calls, "CESfUfRScfD"); L.n = (int)strlen(L.calls);
+            ledger_t L; L.c = c; L.pat = pat; strcpy(L.calls, "CESfUfRSWwcfD"); L.n = (int)strlen(L.calls);
             ledger_emit(&L);
             stat_add("ledger.xor_patterns", 1);
         }
@@ -552,6 +567,31 @@ static void run_pure_sweep(void *va, FILE *out) {
             if (i < 0) break;
             idx[i]++; for (int j = i + 1; j < e; j++) idx[j] = idx[j - 1] + 1;
         }
+    }
+    /* mixed sets: every (data, parity) pair, and with a second data fragment when the code tolerates three */
+    if (tol >= 2) for (int d = 0; d < c.k; d++) for (int q = 0; q < c.m; q++) for (int third = -1; third < (tol >= 3 && c.k > 1 ? 1 : 0); third++) {
+        uint64_t pat = (1ull << d) | (1ull << (c.k + q));
+        if (third >= 0) pat |= 1ull << ((d + 1 + (q % (c.k - 1))) % c.k);
+        char *fr[80]; int n = 0;
+        for (int i = 0; i < s.n; i++) if (!((pat >> i) & 1)) fr[n++] = (char *)gs[i].p;
+        if (g_progress) snprintf(g_progress, 200, "in decode/reconstruct of be=%d (%d,%d,%d) len=%zu without mask %llx (inputs read-only)", c.be, c.k, c.m, c.hd, a->len, (unsigned long long)pat);
+        char *od = NULL; uint64_t ol = 0;
+        int rc = liberasurecode_decode(s.desc, fr, n, s.flen, 0, &od, &ol);
+        if (rc != 0 || ol != s.len || memcmp(od, s.data, ol)) { fprintf(out, "DIFFERENT decode mask %llx rc=%d", (unsigned long long)pat, rc); return; }
+        liberasurecode_decode_cleanup(s.desc, od);
+        int dests[2] = { d, c.k + q };
+        for (int z = 0; z < 2; z++) {
+            char *of = malloc(s.flen);
+            rc = liberasurecode_reconstruct_fragment(s.desc, fr, n, s.flen, dests[z], of);
+            if (rc != 0 || memcmp(of, s.all[dests[z]], s.flen)) { fprintf(out, "DIFFERENT reconstruct of %d mask %llx rc=%d", dests[z], (unsigned long long)pat, rc); free(of); return; }
+            free(of);
+        }
+        /* a second decode of the very same buffers: an input quietly altered by the first shows here even
+           where the pages were writable */
+        od = NULL; rc = liberasurecode_decode(s.desc, fr, n, s.flen, 0, &od, &ol);
+        if (rc != 0 || ol != s.len || memcmp(od, s.data, ol)) { fprintf(out, "DIFFERENT second decode mask %llx rc=%d", (unsigned long long)pat, rc); return; }
+        liberasurecode_decode_cleanup(s.desc, od);
+        done++;
     }
     for (int i = 0; i < s.n; i++) guard_free(&gs[i]);
     if (g_progress) g_progress[0] = 0;
